@@ -1598,7 +1598,15 @@ class Kconfig(object):
                                 self.report.add_record(DefaultValuesArea, sym_or_choice=sym, promptless=True)
                 # If value is supposed to be a default and symbol has a prompt, save it for later
                 elif any(node.prompt is not None for node in sym.nodes):
-                    sym.present_in_current_sdkconfig = True
+                    if sym.choice and sym.orig_type == BOOL:
+                        # Whether a default-marked member line is the choice's entry is decided by what the line says,
+                        # not by the member's value at this point of the load: the options the choice's default
+                        # selection depends on may be written later in the file.
+                        sym._present_in_current_sdkconfig = True
+                        if val != "n":
+                            sym.choice.present_in_current_sdkconfig = True
+                    else:
+                        sym.present_in_current_sdkconfig = True
                     if is_main_sdkconfig:
                         sym._sdkconfig_value = val
                         sym._loaded_as_default = True
